@@ -21,22 +21,25 @@ structure CfgOK (cfg : Config) (p : Params) : Prop where
   complaint_pos : 0 < p.complaint
   arbitration_pos : 0 < p.arbitration
 
-/-- Environment assumptions on one operation in a state (E1/E2/E7 of DESIGN.md):
-    signers are ordinary accounts (module accounts have no keys), environment transfers do
+/-- Environment assumptions on one operation in a state (E1/E2/E7/E8 of DESIGN.md):
+    signers are ordinary accounts (module accounts have no keys; the owner who signs a
+    withdraw-address message has a 20-byte address, 40 hex digits here), environment transfers do
     not touch custody accounts, consumers named by other modules are not custody accounts,
-    and a context id (tx hash, msg index) is never reused. -/
+    a context id (tx hash, msg index) is never reused, and another module calling the keeper API
+    passes arguments that satisfy the module's own stateless validation (a non-empty consumer on
+    creation, `ValidateRequestContextUpdating` on update) — E8, used only for C19's validation clause. -/
 def WF (s : State) : Op → Prop
   | .fund a _ => ¬ s.custody a
   | .xfer a b _ => ¬ s.modAcct a ∧ ¬ s.custody b
   | .define _ a _ => ¬ s.modAcct a
   | .bind _ _ o _ _ _ => ¬ s.modAcct o
   | .update _ _ o _ _ _ => ¬ s.modAcct o
-  | .setwd o _ => ¬ s.modAcct o
+  | .setwd o _ => ¬ s.modAcct o ∧ o.length = 40
   | .disable _ _ o => ¬ s.modAcct o
   | .enable _ _ o _ => ¬ s.modAcct o
   | .refund _ _ o => ¬ s.modAcct o
   | .call id svc _ cons _ _ _ _ _ _ _ => ¬ s.modAcct cons ∧ id ∉ s.usedIds ∧ s.cfg.modsvc ≠ some svc
-  | .modcreate id mod _ _ cons _ _ _ _ _ _ _ _ _ => ¬ s.modAcct cons ∧ id ∉ s.usedIds ∧ mod ≠ ""
+  | .modcreate id mod _ _ cons _ _ _ _ _ _ _ _ _ => ¬ s.modAcct cons ∧ id ∉ s.usedIds ∧ mod ≠ "" ∧ cons ≠ ""
   | .respond _ p _ _ => ¬ s.modAcct p
   | .pause _ cons => ¬ s.modAcct cons
   | .start _ cons => ¬ s.modAcct cons
@@ -45,7 +48,7 @@ def WF (s : State) : Op → Prop
   | .modpause _ _ => True
   | .modstart _ _ => True
   | .modkill _ _ => True
-  | .modupdate _ _ _ _ _ _ _ _ => True
+  | .modupdate _ _ provs _ cap timeout freq total => validateCtxUpdate provs cap timeout freq total = none
   | .withdraw o _ => ¬ s.modAcct o
   | .endblock dt => 0 < dt
 
